@@ -55,9 +55,10 @@ def shape_desc(s):
 
 
 class Iso:
-    def __init__(self, with_device=True):
+    def __init__(self, with_device=True, model_cfgs=()):
         self.sites = {}
         self.with_device = with_device
+        self.model_cfgs = tuple(model_cfgs)
 
     def register_graph(self, g, path):
         for i, v in enumerate(g.inputs):
@@ -141,7 +142,10 @@ class Iso:
             specs.append((self.ref(s.value) if s.value is not None else None, getattr(s.value, "name", None), tuple(s.device),
                           tuple((e.key, tuple(e.value)) for e in s.index_to_device_group_map),
                           tuple((sd.axis, tuple((repr(x.dim), x.num_shards) for x in sd.simple_shardings)) for sd in s.sharded_dims)))
-        return (getattr(dc.configuration, "name", None), dc.pipeline_stage, tuple(specs))
+        cfg = dc.configuration
+        registered = any(cfg is c for c in self.model_cfgs)
+        return ((getattr(cfg, "name", None), getattr(cfg, "num_devices", None), tuple(getattr(cfg, "device_names", ()) or ()), registered),
+                dc.pipeline_stage, tuple(specs))
 
     def graph_desc(self, g, path):
         self.register_graph(g, path)
@@ -156,10 +160,11 @@ class Iso:
 
 
 def model_iso(model):
-    I = Iso(with_device=model.ir_version >= 11)
+    mc = tuple(getattr(model, "device_configurations", ()) or ())
+    I = Iso(with_device=model.ir_version >= 11, model_cfgs=mc)
     fns = []
     for fid, f in model.functions.items():
-        I2 = Iso(with_device=model.ir_version >= 11)
+        I2 = Iso(with_device=model.ir_version >= 11, model_cfgs=mc)
         I2.register_graph(f.graph, ("fn",))
         fns.append((
             "F", fid, f.name, f.domain, f.overload, _none_if_empty(f.doc_string), _md(f.metadata_props), _md(f.opset_imports),
